@@ -18,7 +18,8 @@ Names == {<<"H1">>, <<"H1", "NUL">>, <<"H1", "NUL", "NUL">>, <<"H1", "NUL", "H1"
           <<"H127", "PH">>, <<"SUR">>, <<>>}
 Ports == {"PA", "PB", "PE"}
 \* ("*": a user whose name is a pattern character - a name is a name, never a pattern)
-Users == {<<>>, <<"7">>, <<"8">>, <<"*">>}
+\* ("7@o.example": an account qualified with a realm - a different user from "7", with a different substituted entry)
+Users == {<<>>, <<"7">>, <<"8">>, <<"*">>, <<"7", "@o.example">>}
 Sels  == {"any", "signed", "roundrobin", "unsigned"}
 A(ip, text) == [ip |-> ip, text |-> text]
 Addrs == {A("a", "a"), A("b", "b"), A("c", "c"), A("c", "c2")}
